@@ -90,7 +90,18 @@ theorem mkCell_aligned (m : Mesh) (hm : m.Inv) (r : Region) (k1 k2 : Nat → Nat
     simp [this]
   have c5 : bcOk r.dims ("".toLower) = true := by
     rw [toLower_empty]; simp [bcOk]
-  simp only [c1, ne_eq, not_true_eq_false, if_false, c2, Bool.false_eq_true, c3, Bool.not_true, c4, c5]
+  have c4b : allLt r.ndim (fun a => decide (1 ≤ (roundHalfEven (r.edge a / m.cell.getD a 0)).toNat)) = true := by
+    rw [allLt_iff]
+    intro a ha
+    rw [h.ndim] at ha
+    rw [cell_getD m a ha, hedge a ha]
+    have hp := hpos a ha
+    have : ((k2 a - k1 a : Nat) : Rat) * m.cellAt a / m.cellAt a = ((k2 a - k1 a : Nat) : Rat) := by field_simp
+    rw [this, roundHalfEven_nat]
+    obtain ⟨h1, _, _, _⟩ := h.box a ha
+    simp only [Int.toNat_natCast, decide_eq_true_eq]
+    omega
+  simp only [c1, ne_eq, not_true_eq_false, if_false, c2, Bool.false_eq_true, c3, Bool.not_true, c4, c4b, c5]
   congr 1
   have : (tab r.ndim fun a => (roundHalfEven (r.edge a / m.cell.getD a 0)).toNat) = tab m.ndim fun a => k2 a - k1 a := by
     rw [h.ndim]
